@@ -10,6 +10,8 @@ const (
 )
 
 var registry = []*HarnessSpec{
+	{Prop: "C17", Name: "zzH17b", Pkg: pkgCrhttp, Tier: "quick", Unwind: 200, Bounds: "debug API request for a monitoring interface plus an advertising interface with one stanza of every kind (real parser), prepared or never prepared, forwarding symbolic, State read failing or not"},
+	{Prop: "C17", Name: "zzH17c", Pkg: pkgCrhttp, Tier: "quick", Bounds: "all four (prometheus, pprof) combinations"},
 	{Prop: "C17", Name: "zzH17a", Pkg: pkgCorerad, Tier: "quick", Unwind: 600, Bounds: "three interfaces (advertising with one stanza of every kind parsed by the real parser, monitoring, neither) in 3 orders; plugins prepared or never prepared; forwarding/autoconf per interface symbolic; lifetimes symbolic"},
 	{Prop: "C08", Name: "zzH08b", Pkg: pkgCorerad, Tier: "quick", Bounds: "signalTask.Run for SIGINT / SIGTERM / SIGHUP with a cancel function that reads the recorded decision"},
 	{Prop: "C20", Name: "zzH08b", Pkg: pkgCorerad, Tier: "quick", Bounds: "signalTask.Run for SIGINT / SIGTERM / SIGHUP with a cancel function that reads the recorded decision"},
